@@ -3,19 +3,10 @@
   sequence of writes and every byte limit.
 -/
 import Lc.Model.OutFault
+import Lc.Lemmas.OutFault
 
 namespace Lc.Props.C10Stage
-open Lc.OutFault
-
-theorem foldl_add (l : List Nat) (a : Nat) : l.foldl (· + ·) a = a + l.foldl (· + ·) 0 := by
-  induction l generalizing a with
-  | nil => simp
-  | cons x xs ih => simp only [List.foldl_cons]; rw [ih (a + x), ih (0 + x)]; omega
-
-theorem total_cons (c : Nat) (rest : List Nat) : total (c :: rest) = c + total rest := by
-  simp only [total, List.foldl_cons]
-  rw [foldl_add rest (0 + c)]
-  omega
+open Lc.OutFault Lc.OutFaultLemmas
 
 /-- success ⇔ everything fits -/
 theorem emit_ok_iff (limit written : Nat) (chunks : List Nat) (hw : written ≤ limit) :
